@@ -459,3 +459,4 @@ Proof.
       unfold nlen. rewrite H5, Nat.sub_0_r. rewrite list_eqb_refl. reflexivity.
     + cbn [i_sent i_gets perr_code]. rewrite list_eqb_refl. reflexivity.
 Qed.
+
